@@ -352,6 +352,8 @@ type indexCase struct {
 	Providers bool     // false: metadata-only mode; true: provider info from a loopback /providers endpoint
 	QueryMiss []byte   // a multihash that is not indexed
 	Orphans   []int    // entries whose metadata was deleted from the store afterwards (their value keys remain)
+	Updates   []int    // entries re-advertised with new metadata after the client has already answered queries
+	Removals  []int    // entries whose metadata is deleted after the client has already answered queries
 }
 
 func genIndex(t *rapid.T) indexCase {
@@ -390,6 +392,16 @@ func genIndex(t *rapid.T) indexCase {
 		for i := range c.Entries {
 			if rapid.IntRange(0, 2).Draw(t, "orphan") == 0 {
 				c.Orphans = append(c.Orphans, i)
+			}
+		}
+	}
+	if rapid.IntRange(0, 2).Draw(t, "haslater") == 0 {
+		for i := range c.Entries {
+			switch rapid.IntRange(0, 3).Draw(t, "later") {
+			case 0:
+				c.Updates = append(c.Updates, i)
+			case 1:
+				c.Removals = append(c.Removals, i)
 			}
 		}
 	}
@@ -566,7 +578,49 @@ func runIndex(c indexCase) pbt.Result {
 		return merge(res, pbt.Failf("NewDHashClient: %v", err))
 	}
 	ctx := context.Background()
-	for round := 0; round < 2; round++ { // the same store answers repeated queries identically
+	rounds := 2
+	if len(c.Updates)+len(c.Removals) > 0 {
+		rounds = 3
+	}
+	for round := 0; round < rounds; round++ { // the same store answers repeated queries identically
+		if round == 2 {
+			// the index changes under a client that has already answered: re-advertised metadata, removed metadata
+			res.Classes = append(res.Classes, "index-changed-between-queries")
+			res.NonTrivial = true
+			upd, rem := map[int]bool{}, map[int]bool{}
+			for _, i := range c.Updates {
+				upd[i] = true
+			}
+			for _, i := range c.Removals {
+				rem[i] = true
+			}
+			want = map[int][]triple{}
+			st.mu.Lock()
+			for ei, e := range c.Entries {
+				if orphan[ei] {
+					continue
+				}
+				pid := gen.Keys()[e.Provider].ID
+				vk := dhash.CreateValueKey(pid, e.CtxID)
+				key := b58.Encode(dhash.SHA256(vk, nil))
+				md := e.Metadata
+				switch {
+				case rem[ei]:
+					delete(st.emd, key)
+					continue
+				case upd[ei]:
+					md = append(append([]byte(nil), e.Metadata...), []byte("-v2")...)
+					emd, err := dhash.EncryptMetadata(md, vk)
+					if err != nil {
+						st.mu.Unlock()
+						return merge(res, pbt.Failf("EncryptMetadata: %v", err))
+					}
+					st.emd[key] = emd
+				}
+				want[e.MH] = append(want[e.MH], triple{pid.String(), string(e.CtxID), string(md)})
+			}
+			st.mu.Unlock()
+		}
 		for i, mhb := range c.MHs {
 			resp, err := cl.Find(ctx, multihash.Multihash(mhb))
 			if err != nil {
@@ -620,7 +674,7 @@ func runIndex(c indexCase) pbt.Result {
 
 func TestC12_Index(t *testing.T) {
 	pbt.Run(t, pbt.Config{Prop: "C12", Unit: "TestC12_Index", TrackCurrent: true,
-		Rule:        "indexes of 1..5 multihashes -> 1..8 (provider, context ID 0..64 B, metadata 1..200 B) entries, stored through CreateValueKey/EncryptValueKey/EncryptMetadata/SecondMultihash/SHA256 into an independent in-memory dhstore (reached through the DHStoreAPI interface or through the library's HTTP dhstore client against a loopback server), plus 0..3 garbage value keys (0..40 random bytes) placed first; in one case of three a drawn subset of the entries has its metadata deleted again (the value key stays, as after a removal by context ID); metadata-only mode or provider info from a loopback /providers endpoint; oracle: Find(mh) returns exactly the indexed multiset (entries whose metadata is still stored) for each multihash, nothing for a multihash that is not indexed, never an error or crash. Non-trivial: >= 2 providers for one multihash, or garbage keys present; distinct by case.",
+		Rule:        "indexes of 1..5 multihashes -> 1..8 (provider, context ID 0..64 B, metadata 1..200 B) entries, stored through CreateValueKey/EncryptValueKey/EncryptMetadata/SecondMultihash/SHA256 into an independent in-memory dhstore (reached through the DHStoreAPI interface or through the library's HTTP dhstore client against a loopback server), plus 0..3 garbage value keys (0..40 random bytes) placed first; in one case of three a drawn subset of the entries has its metadata deleted again (the value key stays, as after a removal by context ID); in one case of three the index changes after the client has answered two rounds of queries (entries re-advertised with new metadata, metadata removed) and is queried again with the same client; metadata-only mode or provider info from a loopback /providers endpoint; oracle: Find(mh) returns exactly the indexed multiset (entries whose metadata is still stored) for each multihash, nothing for a multihash that is not indexed, never an error or crash. Non-trivial: >= 2 providers for one multihash, or garbage keys present; distinct by case.",
 		Assumptions: []string{"metadata is >= 1 byte (the client documents empty metadata as 'no metadata')", "one metadata per (provider, context ID) pair, as the value key addresses the metadata", "providers have no extended providers (expansion is C17)"},
 	}, genIndex, runIndex)
 }
